@@ -14,7 +14,8 @@ class C07(Prop):
             "record/datagram it carries; non-trivial = at least one data packet was exported; distinct = spec digests")
     reach = ["ipv6", "record_spans_3_packets", "duplicate_segment", "timestamp_tie", "clock_step_back", "clock_step_fwd",
              "quic_datagram", "multi_conn", "coarse_clock", "quic_cross_direction_tie", "quic_client_address_change",
-             "quic_first_seen_packet_from_server", "container_with_other_blocks"]
+             "quic_first_seen_packet_from_server", "container_with_other_blocks",
+             "same_ip_pair_other_macs", "metadata_records_oriented", "client_alert_with_a"]
 
     def plan(self, tier):
         p = super().plan(tier)
@@ -56,6 +57,32 @@ class C07(Prop):
             for c in spec["conns"]:
                 if c["proto"] == "quic":
                     c["unique_ts"] = "per_direction"
+        SH = R.fork("samehosts")
+        tl0 = [c for c in spec["conns"] if c["proto"] in ("tls", "quic")]
+        if tl0 and SH.chance(20):
+            # a further connection between the same two IP addresses whose frames carry other MAC addresses (another
+            # router / interface on the path): link-layer addresses belong to the connection, not to the IP pair
+            a = SH.choice(tl0)
+            used = set((c["c"]["ip"], c["c"]["port"], c["s"]["ip"], c["s"]["port"]) for c in spec["conns"])
+            k = max(c["id"] for c in spec["conns"]) + 1
+            try:
+                if a["proto"] == "tls":
+                    b = gen.gen_tls_conn(SH.fork("c"), k, {"records_max": 5, "len_max": 2000, "isn_wrap": False,
+                                                               "v6_pct": 100 if a["v6"] else 0}, used,
+                                         client_ip=a["c"]["ip"], server_ip=a["s"]["ip"], server_port=a["s"]["port"])
+                else:
+                    from .. import quicpeer
+                    b = quicpeer.gen_quic_conn(SH.fork("q"), k, {"small": True, "v6_pct": 100 if a["v6"] else 0}, used,
+                                               client_ip=a["c"]["ip"], server_ip=a["s"]["ip"], server_port=a["s"]["port"])
+                if b["v6"] == a["v6"]:
+                    spec["conns"].append(b)
+                    spec["same_ips_other_macs"] = True
+            except (ValueError, RuntimeError):
+                pass
+        if R.fork("meta").chance(15):
+            # with -a handshake, change-cipher-spec and alert records are exported as captured: they, too, travel from
+            # their original sender to their original receiver
+            spec["cli"] = {"a": True}
         CT = R.fork("container")
         if CT.chance(20):
             # other blocks between the packets, among them descriptions of further (unused) interfaces with their own
@@ -76,6 +103,8 @@ class C07(Prop):
         self.reach_probes(spec, ex, out)
         if spec.get("container"):
             out.count("reach:container_with_other_blocks")
+        if spec.get("same_ips_other_macs"):
+            out.count("reach:same_ip_pair_other_macs")
         if failure_class(res):
             out.count("run_failed")     # C01/C02/C03 report failures
             return out
@@ -104,11 +133,38 @@ class C07(Prop):
                                 "conn %d pkt %d: eth %s>%s expected %s>%s" % (c["id"], p["idx"], p["eth_src"].hex(),
                                                                              p["eth_dst"].hex(), macs[s_].hex(), macs[d_].hex()))
                     break
-            if c["proto"] == "tls":
+            if c["proto"] == "tls" and spec.get("cli", {}).get("a"):
+                self.check_tls_metadata_orientation(out, c, obj, cep, sep)
+            elif c["proto"] == "tls":
                 self.check_tls(out, spec, c, obj, cep, sep)
             elif c["proto"] == "quic":
                 self.check_quic(out, spec, c, obj, cep, sep)
         return out
+
+    def check_tls_metadata_orientation(self, out, c, conv, cep, sep):
+        """-a: an exported packet whose payload is, byte for byte, one record of the connection that only one side sent
+        (hello, encrypted alert, encrypted handshake record) must travel from that side"""
+        sent_by = {}
+        for r in c["records"]:
+            sent_by.setdefault(bytes(r["raw"]), set()).add(r["d"])
+        all_ts = set(f["ts"] for f in c["frames"] if f["kept"])
+        n = 0
+        for (s_, payload, ts, pk) in conv.segs:
+            ds = sent_by.get(bytes(payload))
+            if not ds or len(ds) != 1:
+                continue
+            n += 1
+            d = next(iter(ds))
+            if s_ != (cep if d == "c" else sep):
+                out.violate("direction-preserved", "metadata-record-in-wrong-direction",
+                            "conn %d out pkt %d: record %s... sent by %s is exported from the other side" % (
+                                c["id"], pk["idx"], bytes(payload)[:6].hex(), "client" if d == "c" else "server"))
+                break
+        if n:
+            out.nontrivial = True
+            out.count("reach:metadata_records_oriented", n)
+        if any(r["kind"] == "alert" and r["d"] == "c" for r in c["records"]):
+            out.count("reach:client_alert_with_a")
 
     def check_tls(self, out, spec, c, conv, cep, sep):
         all_ts = set(f["ts"] for f in c["frames"] if f["kept"])
